@@ -36,6 +36,24 @@ def extract():
     want = "for(size_ti=0;i<amountOfInternalCacheNodes;i++)if(size<=cache_[i].size_)returni;return0;"
     if norm != want:
         raise TranslateError("getIndexForCache changed shape: " + norm)
+    # ~GlobalSimpleStringCache: which clear function gives the memory back, and in which order
+    body = function_body(src, r"GlobalSimpleStringCache::~GlobalSimpleStringCache\s*\(\s*\)\s*\{")
+    norm = re.sub(r"\s+", "", body)
+    m = re.fullmatch(r"SimpleString::setStringAllocator\(allocator_->originalAllocator\(\)\);cache_\.(\w+)\(\);deleteallocator_;", norm)
+    if not m:
+        raise TranslateError("~GlobalSimpleStringCache changed shape: " + norm)
+    if m.group(1) == "clearAllIncludingCurrentlyUsedMemory":
+        dtor_all = "true"
+    elif m.group(1) == "clearCache":
+        dtor_all = "false"
+    else:
+        raise TranslateError("~GlobalSimpleStringCache calls unknown clear function " + m.group(1))
+    body = function_body(src, r"SimpleStringCacheAllocator::alloc_memory\s*\([^)]*\)\s*\{")
+    if re.sub(r"\s+", "", body) != "returncache_.alloc(size);":
+        raise TranslateError("SimpleStringCacheAllocator::alloc_memory changed shape")
+    body = function_body(src, r"SimpleStringCacheAllocator::free_memory\s*\([^)]*\)\s*\{")
+    if re.sub(r"\s+", "", body) != "cache_.dealloc(memory,size);":
+        raise TranslateError("SimpleStringCacheAllocator::free_memory changed shape")
     block = sum(word_size(f) for f in struct_fields(src, "SimpleStringMemoryBlock"))
     node = sum(word_size(f) for f in struct_fields(src, "SimpleStringInternalCacheNode"))
     text = HEADER % ("translate/extract_cache.py", SRC)
@@ -45,6 +63,8 @@ def extract():
     text += "def amountOfNodes : Nat := %d\n" % amount
     text += "def blockStructBytes : Nat := %d\n" % block
     text += "def nodeStructBytes : Nat := %d\n" % node
+    text += "/-- does ~GlobalSimpleStringCache call clearAllIncludingCurrentlyUsedMemory (true) or only clearCache (false) -/\n"
+    text += "def globalDtorClearsAll : Bool := %s\n" % dtor_all
     text += "end Gen.Cache\n"
     return text
 
